@@ -11,3 +11,49 @@ pub(crate) fn parent_certified(st: &SlotState, h: &BlockHash) -> bool {
 pub(crate) fn parent_known(st: &SlotState, h: &BlockHash) -> bool {
     st.parents.get(h).is_some()
 }
+
+/// Recording stub for `SlotState::notify_parent_certified` (Kani only).  In the pool-level harnesses the
+/// call itself is what is checked (which slot state is told about which block); what the call does - mark
+/// the parent certified, evaluate safe-to-notar - is `c06_kernel_s2n`'s subject and, executed through the
+/// pool's map of slot states, costs > 10 min of symbolic execution (measured).
+#[cfg(kani)]
+pub(crate) mod cut {
+    use super::*;
+    struct Ghost {
+        magic: [u64; 2],
+        calls: usize,
+        slots: [u64; 4],
+        tags: [u8; 4],
+    }
+    static mut G: Ghost = Ghost { magic: [0xC06_C07E_0000_0001, 0x9E37_79B9_7F4A_7C15], calls: 0, slots: [0; 4], tags: [0; 4] };
+    /// how often the slot state of `slot` was told that the parent of block `tag` is certified
+    pub(crate) fn told(slot: u64, tag: u8) -> usize {
+        let mut n = 0;
+        let mut i = 0;
+        unsafe {
+            while i < 4 {
+                if i < G.calls && G.slots[i] == slot && G.tags[i] == tag {
+                    n += 1;
+                }
+                i += 1;
+            }
+        }
+        n
+    }
+    pub(crate) fn calls() -> usize {
+        unsafe { G.calls }
+    }
+    pub(crate) fn notify_parent_certified(this: &mut SlotState, hash: BlockHash) -> Option<either::Either<crate::consensus::pool::PoolEvent, crate::BlockId>> {
+        // SAFETY: BlockHash is a transparent wrapper chain around [u8; 32]
+        let b: [u8; 32] = unsafe { std::mem::transmute_copy::<BlockHash, [u8; 32]>(&hash) };
+        unsafe {
+            if G.calls < 4 {
+                G.slots[G.calls] = this.slot.inner();
+                G.tags[G.calls] = b[0];
+            }
+            G.calls += 1;
+        }
+        std::mem::forget(hash);
+        None
+    }
+}
